@@ -68,7 +68,10 @@ class DArr:
     __array_priority__ = 1000
 
     def __init__(self, data, chunks=None):
-        self.data = _obj(data)
+        if isinstance(data, _np.ndarray) and data.dtype.kind in "biu":
+            self.data = data  # concrete index / mask arrays stay concrete
+        else:
+            self.data = _obj(data)
         self.chunks = _norm_chunks(chunks, self.data.shape)
 
     # -- basic protocol
@@ -363,6 +366,8 @@ class _DA:
     def array(self, x, **kw):
         if isinstance(x, DArr):
             return x
+        if isinstance(x, (list, tuple)) and any(isinstance(y, DArr) for y in x):
+            return self.stack([y if isinstance(y, DArr) else DArr(NP.asarray(y)) for y in x])
         return DArr(NP.asarray(x))
 
     asarray = array
